@@ -7,7 +7,7 @@ mod verif_native {
     fn with_watchdog<F: FnOnce() + Send + 'static>(f: F) -> bool {
         let (tx, rx) = std::sync::mpsc::channel();
         std::thread::spawn(move || { f(); let _ = tx.send(()); });
-        rx.recv_timeout(std::time::Duration::from_secs(3)).is_ok()
+        rx.recv_timeout(std::time::Duration::from_secs(60)).is_ok()
     }
 
     #[test]
